@@ -25,6 +25,9 @@ CLAIMS = {
          "rustc is the observer for compilation; translator is regex/lexer-level; manifest-level defaults are known finding D5; WO fields hit D7. " + TB, "5 C17"),
  "C20": ("C20_accepted_output_order_independent, C20_error_order_refuted (+partial), C20_cli_status, C20_dispatch_on_extension over models of the hash-container passes (iteration order an explicit parameter) and of the CLI/macro dispatch; run-time facts (process/thread/hash-seed independence, files, macro expansion) tied by repeated CLI processes, threads, -o vs stdout, and a create_device! crate next to included CLI output.",
          "Partial by nature: determinism of the real binary is observed over K runs, not proved; D13 (error choice among several dangling refs) is a known finding. " + TB, "5 C20"),
+
+ "C19": ("PARTIAL BY NATURE. Coq carries the name/reference/literal obligations of the emitted items (Emit.v: wf_output): five machine-checked refutations with witnesses (D7 WO field, D8 negative stride under an unsigned address type, D9 block ref duplicates, D12 duplicate discriminant, D16 negative discriminant on uint) and C19_wf_output_partial for definitions outside those classes; that rustc accepts the output is tied by the correspondence alone: batches of accepted cfg-free definitions over the documented language are cargo-checked as no_std-compatible modules, every diagnostic mapped to its definition; known classes must fail exactly as recorded, anything else is a violation; syn parse and accessor presence are checked too.",
+         "rustc/cargo are the observers; Rust's type system is not modelled. " + TB, "5 C19"),
  "C03": ("Ops half: C03_ops_safe_load/store and C03_store_footprint — in the model every out-of-slice access, usize underflow or over-wide shift is a Fail, and in-bounds calls are proved never to Fail and to change no byte outside the covered bytes; tie = canary-guarded debug build of the real ops vs the model on the exhaustive geometry. Generator half: accepted definitions only emit in-bounds call sites (C03_accepted_accessors_in_bounds) checked against the call sites of real generator output.",
          "Release-build UB is not observable directly; debug_assert!/canaries/Miri (thorough) are the observers. " + TB, "5 C03"),
 }
